@@ -163,7 +163,9 @@ def increments(facts, res):
                 if b.get("k") in ("MemberExpr", "CXXDependentScopeMemberExpr") and b.get("name") in cfields:
                     return lhs.get("name")
             return None
-        for x in walk(tbf.body(m)):
+        # private helpers of the decorator called as statements are spliced in (their parameters replaced by the arguments)
+        mx = tbf.expand_member_helpers(facts, m)
+        for x in walk(tbf.body(mx)):
             if x.get("k") == "CompoundAssignOperator" and x.get("op") == "+=" and counter_field(kids(x)[0]):
                 incs.append((counter_field(kids(x)[0]), to_sym(kids(x)[1], sym_of, facts), x))
             elif x.get("k") == "UnaryOperator" and x.get("op") == "++" and counter_field(kids(x)[0]):
